@@ -30,3 +30,29 @@ Definition PERS_MovingLightResponder : list (N * list N * list (N * N * N * bool
    (5, [66; 97; 115; 105; 99], [(0, 1, 0, false, []); (0, 257, 127, false, []); (0, 258, 127, false, []); (0, 513, 0, false, []); (0, 769, 0, false, [])]);
    (0, [78; 111; 32; 67; 104; 97; 110; 110; 101; 108; 115], []);
    (3, [81; 117; 105; 114; 107; 115; 32; 77; 111; 100; 101], [(0, 1, 0, true, []); (1, 0, 0, true, [])])].
+(* AdvancedDimmerResponder.cpp: private constants, setting descriptions, personality *)
+Definition ADV_DIMMER_RESOLUTION : N := 14.
+Definition ADV_LOWER_MAX_LEVEL : N := 32767.
+Definition ADV_UPPER_MAX_LEVEL : N := 65535.
+Definition ADV_LOWER_MIN_LEVEL : N := 0.
+Definition ADV_UPPER_MIN_LEVEL : N := 32767.
+Definition ADV_PRESET_COUNT : N := 6.
+Definition ADV_MIN_FAIL_DELAY_TIME : N := 10.
+Definition ADV_MIN_FAIL_HOLD_TIME : N := 0.
+Definition ADV_MAX_FAIL_DELAY_TIME : N := 255.
+Definition ADV_MAX_FAIL_HOLD_TIME : N := 65280.
+Definition ADV_MIN_STARTUP_DELAY_TIME : N := 0.
+Definition ADV_MIN_STARTUP_HOLD_TIME : N := 0.
+Definition ADV_MAX_STARTUP_DELAY_TIME : N := 1200.
+Definition ADV_MAX_STARTUP_HOLD_TIME : N := 36000.
+Definition ADV_INFINITE_TIME : N := 65535.
+Definition ADV_CURVES : list (list N) :=
+  [[76; 105; 110; 101; 97; 114; 32; 67; 117; 114; 118; 101]; [83; 113; 117; 97; 114; 101; 32; 76; 97; 119; 32; 67; 117; 114; 118; 101]; [83; 32; 67; 117; 114; 118; 101]].
+Definition ADV_RESPONSE_TIMES : list (list N) :=
+  [[83; 117; 112; 101; 114; 32; 102; 97; 115; 116]; [70; 97; 115; 116]; [83; 108; 111; 119]; [86; 101; 114; 121; 32; 115; 108; 111; 119]].
+Definition ADV_LOCK_STATES : list (list N) :=
+  [[85; 110; 108; 111; 99; 107; 101; 100]; [83; 116; 97; 114; 116; 32; 65; 100; 100; 114; 101; 115; 115; 32; 76; 111; 99; 107; 101; 100]; [65; 100; 100; 114; 101; 115; 115; 32; 97; 110; 100; 32; 80; 101; 114; 115; 111; 110; 97; 108; 105; 116; 105; 101; 115; 32; 76; 111; 99; 107; 101; 100]].
+Definition ADV_PWM_FREQUENCIES : list (N * list N) :=
+  [(120, [49; 50; 48; 72; 122]); (500, [53; 48; 48; 72; 122]); (1000, [49; 107; 72; 122]); (5000, [53; 107; 72; 122]); (10000, [49; 48; 107; 72; 122])].
+Definition ADV_PERSONALITIES : list (N * list N) :=
+  [(12, [54; 45; 67; 104; 97; 110; 110; 101; 108; 32; 49; 54; 45; 98; 105; 116])].
